@@ -225,6 +225,13 @@ func cmdBatch(args []string) {
 		sort.Strings(os_)
 		fmt.Printf("note: violations of other properties seen in this batch (decided by their own checks): %s\n", strings.Join(os_, " "))
 	}
+	if n := sumCounter(results, "ledger_inconsistent_blocks"); n > 0 {
+		fmt.Printf("warning: in %.0f block(s) the bank events did not describe the real balance changes (code under test emits inconsistent events); ledger-based checks skipped those blocks\n", n)
+		if exit == 0 && ledgerDependent[*prop] {
+			fmt.Println("check aborted: this property's oracle depends on the event ledger, which was inconsistent (exit 2, not a violation)")
+			os.Exit(2)
+		}
+	}
 	writeEvidence(*prop, *profile, *tier, *seed, results, nviol, len(knownSeen), time.Since(t0))
 	fmt.Printf("%s %s: %d runs, %d blocks, %.0f tx ok / %.0f failed, %d violation class(es), %.1fs\n", *prop, *tier, len(results), sumBlocks(results), sumCounter(results, "tx_ok"), sumCounter(results, "tx_fail"), nviol, time.Since(t0).Seconds())
 	os.Exit(exit)
@@ -245,3 +252,6 @@ func sumCounter(rs []*RunResult, k string) float64 {
 	}
 	return n
 }
+
+// ledgerDependent: properties whose oracle needs the bank-event ledger.
+var ledgerDependent = map[string]bool{"C02": true, "C03": true, "C04": true, "C12": true, "C15": true}
